@@ -372,6 +372,28 @@ def _idents(L):
     return d
 
 
+def _force_models(L):
+    """evaluate every attached model once at a fixed point, so that a cleared cache refills even when the sight lines
+    no longer cross the emitting volume after the change"""
+    from raysect.core import Point3D, Vector3D
+    from raysect.optical import Spectrum
+    sp = Spectrum(480.0, 560.0, 16)
+    for m in list(L.plasma.models):
+        try:
+            m.emission(Point3D(0.1, 0.1, 0.1), Vector3D(1, 0, 0), sp)
+        except Exception:  # noqa
+            pass
+    for m in list(L.beam.models):
+        try:
+            m.emission(Point3D(0.0, 0.0, 0.5), Point3D(0.1, 0.1, 0.1), Vector3D(0, 0, 1), Vector3D(1, 0, 0), sp)
+        except Exception:  # noqa
+            pass
+    try:
+        L.beam.density(0.0, 0.0, 0.2)
+    except Exception:  # noqa
+        pass
+
+
 def refill_correspondence(ctx, S, M):
     names = [n for n in sorted(M) if n in PARAM_NODE]
     lines = []
@@ -398,6 +420,7 @@ def refill_correspondence(ctx, S, M):
         if st != 'ok':
             ctx.broke('correspondence', 'C01 base scene', dict(detail='base scene does not render: %s' % st))
             return
+        _force_models(L)
         keep = [list(L.plasma.children), list(L.beam.children), list(L.laser.get_geometry()),
                 [c.material for c in L.plasma.children + L.beam.children + L.laser.get_geometry()]]  # keep ids alive
         before = _idents(L)
@@ -411,6 +434,7 @@ def refill_correspondence(ctx, S, M):
         except Exception as e:  # noqa  (S reports raising mutators)
             continue
         st, _ = S.observe(L)
+        _force_models(L)
         after = _idents(L)
         observed = set()
         for d in L.data.values():
